@@ -56,14 +56,18 @@ class MetadataGenerator:
         """
         fields = {}
         for key, value in data.items():
-            if not isinstance(key, str):
-                raise TypeError(f'You are probably using a parser that is not JSON compatible and have data with some {type(key)}s as dict keys. '
-                                f'This is not supported.\n'
-                                f'Context: {data}\n'
-                                f'(If you are parsing yaml, try replacing PyYaml with ruamel.yaml)')
+            self._check_key(key, data)
             convert_dict = key not in self.dict_keys_fields
             fields[key] = self._detect_type(value, convert_dict)
         return fields
+
+    @staticmethod
+    def _check_key(key, data: dict):
+        if not isinstance(key, str):
+            raise TypeError(f'You are probably using a parser that is not JSON compatible and have data with some {type(key)}s as dict keys. '
+                            f'This is not supported.\n'
+                            f'Context: {data}\n'
+                            f'(If you are parsing yaml, try replacing PyYaml with ruamel.yaml)')
 
     def _detect_type(self, value, convert_dict=True) -> MetaData:
         """
@@ -100,6 +104,8 @@ class MetadataGenerator:
             if convert_dict:
                 return self._convert(value)
             else:
+                for key in value:
+                    self._check_key(key, value)
                 types = [self._detect_type(item) for item in value.values()]
                 if len(types) > 1:
                     union = DUnion(*types)
